@@ -89,7 +89,7 @@ struct Pr<'a> {
 fn is_simple(s: &Stmt) -> bool {
     matches!(
         s,
-        Stmt::Assign(..) | Stmt::Print(..) | Stmt::Read(..) | Stmt::Goto(..) | Stmt::Gosub(..) | Stmt::Return | Stmt::CallSub(..) | Stmt::Resume(..) | Stmt::ResumeLabel(..) | Stmt::OnErrorGoto(..) | Stmt::Raw(..)
+        Stmt::Assign(..) | Stmt::Print(..) | Stmt::Read(..) | Stmt::Goto(..) | Stmt::Gosub(..) | Stmt::Return | Stmt::ReturnTo(..) | Stmt::CallSub(..) | Stmt::Resume(..) | Stmt::ResumeLabel(..) | Stmt::OnErrorGoto(..) | Stmt::Raw(..)
     )
 }
 
@@ -444,6 +444,11 @@ impl<'a> Pr<'a> {
                 format!("{}{}{}", k, s, self.ident(l))
             }
             Stmt::Return => self.kw("RETURN"),
+            Stmt::ReturnTo(l) => {
+                let k = self.kw("RETURN");
+                let s = self.sp();
+                format!("{}{}{}", k, s, self.ident(l))
+            }
             Stmt::Resume(ResumeKind::Same) => self.kw("RESUME"),
             Stmt::Resume(ResumeKind::Next) => {
                 let a = self.kw("RESUME");
